@@ -8,7 +8,8 @@ package upgrade
 //
 // One case = one history:   h <ver> <fs> ; <op> ; <op> ...        (see props/C18.py for the grammar)
 // One output line per case: per-op segments joined by " | ":
-//     <res> j=<journal phase> cur=<current-manifest version> sn=<snapshot dirs with metadata> fs=<p0,..,p4> mon=<ok|MIXED|na|->
+//     <res> j=<journal phase> cur=<current-manifest version> sn=<snapshot dirs with metadata> fs=<p0,..,p4>
+//     mon=<ok|MIXED|na|-> ver=<ok|STALE|na|->
 // A second case kind tests safeTarEntryPath:  name <hex>  ->  ok <hex of cleaned name> | rej
 
 import (
@@ -58,6 +59,7 @@ type vf18Sandbox struct {
 	base    map[int]string
 	baseOK  bool
 	hasBase bool
+	baseVer string // version current-manifest named when the journal of the last apply was written
 }
 
 // ---- fake Commander + Reporter (one per operation) ----
@@ -67,6 +69,7 @@ type vf18Fake struct {
 	dead       bool
 	fail       map[int]bool
 	crash      int
+	crashedAt  int
 	ha, hr     string
 	ob, rob    []vf18Obst
 	reloadSeen [2]bool
@@ -84,6 +87,7 @@ func (f *vf18Fake) off() int {
 func (f *vf18Fake) point(lab int) {
 	if f.crash == lab {
 		f.dead = true
+		f.crashedAt = lab
 		panic(vf18Crash{})
 	}
 }
@@ -420,6 +424,19 @@ func (sb *vf18Sandbox) phase() string {
 }
 
 func (sb *vf18Sandbox) observe(res, mon string) string {
+	return sb.observeVer(res, mon, "-")
+}
+
+func (sb *vf18Sandbox) curVersion() string {
+	if m, err := ParseManifestFile(filepath.Join(sb.runner.StateRoot, "current-manifest.yaml")); err == nil {
+		return strings.TrimPrefix(m.OsvbngVersion, "v")
+	} else if errors.Is(err, os.ErrNotExist) {
+		return "none"
+	}
+	return "?"
+}
+
+func (sb *vf18Sandbox) observeVer(res, mon, ver string) string {
 	cur := "?"
 	if m, err := ParseManifestFile(filepath.Join(sb.runner.StateRoot, "current-manifest.yaml")); err == nil {
 		cur = strings.TrimPrefix(m.OsvbngVersion, "v")
@@ -447,7 +464,7 @@ func (sb *vf18Sandbox) observe(res, mon string) string {
 		}
 		sns = strings.Join(parts, "+")
 	}
-	return fmt.Sprintf("%s j=%s cur=%s sn=%s fs=%s mon=%s", res, sb.phase(), cur, sns, strings.Join(sb.dump(), ","), mon)
+	return fmt.Sprintf("%s j=%s cur=%s sn=%s fs=%s mon=%s ver=%s", res, sb.phase(), cur, sns, strings.Join(sb.dump(), ","), mon, ver)
 }
 
 // ---- tarball construction ----
@@ -703,6 +720,16 @@ func (sb *vf18Sandbox) monRestored(cur []string) string {
 	return "ok"
 }
 
+func (sb *vf18Sandbox) verRestored() string {
+	if !sb.hasBase || !sb.baseOK {
+		return "na"
+	}
+	if sb.curVersion() != sb.baseVer {
+		return "STALE"
+	}
+	return "ok"
+}
+
 func (sb *vf18Sandbox) doApply(tokens []string) string {
 	kv := vf18KV(tokens)
 	var arts []vf18Art
@@ -716,12 +743,17 @@ func (sb *vf18Sandbox) doApply(tokens []string) string {
 	if err != nil {
 		return "harness-error:" + strings.ReplaceAll(err.Error(), " ", "_")
 	}
-	sb.newFake(kv, false)
+	fake := sb.newFake(kv, false)
+	afterCommit := fake.crash == 35
+	if afterCommit {
+		fake.crash = 32
+	}
 	opts := ApplyOptions{ForceRetry: kv["force"] == "1"}
 	if e := kv["exp"]; e != "-" && e != "" {
 		opts.ExpectedFrom = "v" + e
 	}
 	pre := sb.dump()
+	preVer := sb.curVersion()
 	_, jidBefore := sb.journal()
 	res := "?"
 	func() {
@@ -748,8 +780,20 @@ func (sb *vf18Sandbox) doApply(tokens []string) string {
 			res = "err"
 		}
 	}()
+	if afterCommit && res == "crash" && fake.crashedAt == 32 {
+		// label 35: the process dies between WriteCurrentManifest and the "completed" phase write.  No
+		// injectable call sits between the two statements, so the state is constructed with the real code:
+		// die at Stage 12 (nothing of stage 12 has run yet), then execute the stage's first statement.
+		if st, err := ExtractTarball(tarPath); err == nil {
+			_ = WriteCurrentManifest(sb.runner.StateRoot, st.Manifest)
+			_ = st.Cleanup()
+		} else {
+			res = "harness-error"
+		}
+	}
 	j, jid := sb.journal()
 	if j != nil && jid != jidBefore { // this apply wrote the journal
+		sb.baseVer = preVer
 		sb.hasBase = true
 		sb.baseOK = j.Phase != "started"
 		sb.base = map[int]string{}
@@ -758,19 +802,23 @@ func (sb *vf18Sandbox) doApply(tokens []string) string {
 		}
 	}
 	now := sb.dump()
-	mon := "-"
+	mon, ver := "-", "-"
 	switch res {
 	case "ok":
-		mon = "ok"
+		mon, ver = "ok", "ok"
 		for _, a := range arts {
 			if now[a.p] != vf18ExpectedNew(a) {
 				mon = "MIXED"
 			}
 		}
+		if sb.curVersion() != kv["to"] {
+			ver = "STALE"
+		}
 	case "err:rolledback":
 		mon = sb.monRestored(now)
+		ver = sb.verRestored()
 	}
-	return sb.observe(res, mon)
+	return sb.observeVer(res, mon, ver)
 }
 
 func (sb *vf18Sandbox) doRollback(tokens []string) string {
@@ -797,11 +845,12 @@ func (sb *vf18Sandbox) doRollback(tokens []string) string {
 			res = "rb:err"
 		}
 	}()
-	mon := "-"
+	mon, ver := "-", "-"
 	if res == "rb:ok" {
 		mon = sb.monRestored(sb.dump())
+		ver = sb.verRestored()
 	}
-	return sb.observe(res, mon)
+	return sb.observeVer(res, mon, ver)
 }
 
 func vf18RunCase(line, root string, key, wrong *ecdsa.PrivateKey, pubPEM []byte) (out string) {
